@@ -21,13 +21,16 @@ THEOREMS = [
     'C04.replicaPos_eq', 'C04.superBox_volume', 'C04.supersize_copies_payload',
     'C04.replica_injective', 'C04.newVects_det', 'C04.rotate_members', 'C04.rotate_inside',
     'C04.rotate_distinct', 'C04.rotate_refuses_singular',
+    'C04.rotate_equal_representation', 'C04.rep_exists', 'C04.rep_unique', 'C04.reduce_rep',
 ]
 PARTIAL = {
-    'rotate_count': 'that each original atom is represented exactly |det U| times (the sublattice-index theorem, '
-                    'including coverage of the new cell by the bounding supercell) is not proved; proved: members are '
-                    'originals plus lattice vectors with payload copied, pairwise distinct modulo the new lattice, '
-                    'volume scales by det U (newVects_det). The count per original is checked on the implementation '
-                    '(its own expected-count test, the correspondence and the oracle)',
+    'rotate_count': 'proved for the infinite crystal: the images of any two original atoms inside the new half-open '
+                    'cell are in explicit bijection by new-lattice translations (rotate_equal_representation: every '
+                    'original is represented equally often, one image per coset of Z^3/Z^3.U), members are originals '
+                    'plus lattice vectors with payload copied, pairwise distinct modulo the new lattice, volume scales '
+                    'by det U. Not proved: that this common number equals |det U| (sublattice index) and that the '
+                    'finite bounding supercell (corners -/+ 1) contains every representative; both are the code\'s '
+                    'own expected-count test and are checked by the correspondence and the oracle',
     'normalize_after_rotate': 'the final normalize step is property C05; here the result is compared modulo the '
                               'returned rotation',
 }
